@@ -37,6 +37,9 @@ SETS = {
           '[#Ring1]', '[nop]', '.', '[B-1]'],
     'C': ['[C]', '[=C]', '[N]', '[S]', '[Branch2]', '[Branch3]', '[=Branch2]', '[Ring1]', '[Ring3]', '[#Ring2]',
           '[Mg]', '[OH0]', '[CH9]', '[Ceps]'],
+    # symbols outside the grammar that have the shape of a branch / ring / atom symbol, at every state
+    'D': ['[C]', '[O]', '[F]', '[=N]', '[Branch1]', '[Ring1]', '[Branch4]', '[=Branch0]', '[Ring4]', '[=-Ring1]',
+          '[Ringng1]', '[chch]', '.', '[epsilon]'],
 }
 BIG = ['[C]', '[=C]', '[#C]', '[N]', '[=N]', '[#N]', '[O]', '[=O]', '[S]', '[=S]', '[P]', '[F]', '[Cl]', '[B]',
        '[C@]', '[C@@H1]', '[N+1]', '[O-1]', '[/C]', '[\\C]', '[13CH2]', '[Fe+2]', '[Branch1]', '[=Branch1]',
@@ -108,7 +111,7 @@ def _work(job):
 def domain(tier, seed):
     from harness.common import strings_upto
     jobs = []
-    L = {'quick': {'A': 5, 'B': 4, 'C': 4}, 'thorough': {'A': 6, 'B': 5, 'C': 5}}[tier]
+    L = {'quick': {'A': 5, 'B': 4, 'C': 4, 'D': 4}, 'thorough': {'A': 6, 'B': 5, 'C': 5, 'D': 5}}[tier]
     for name, syms in SETS.items():
         ss = list(strings_upto(syms, L[name]))
         for tname in (['default', 'tight'] if tier == 'quick' else ['default', 'octet_rule', 'tight', 'big']):
